@@ -9,10 +9,7 @@ so every case - also a shrunk one - renders to a valid test case with the same d
 
 Independent of the code under test (no exactly_lib import).
 """
-from vlib.ref.c10_model import RESERVED_WORDS, PHASES
-
-NAKED_FORBIDDEN_CHARS = set(' \t\n\r\'"#\\')
-NAKED_FORBIDDEN_TOKENS = set(RESERVED_WORDS) | {'-existing-file', '-existing-dir', '-existing-path'}
+from vlib.ref.c10_model import PHASES, string_chunks
 
 PROBE_CMD = '{PY} {PROBE} {OBS}/%s'
 EXE_NAME = 'bin/probe'
@@ -24,79 +21,14 @@ REL_OPT = {'default': '', 'home': '-rel-home ', 'act-home': '-rel-act-home ', 'a
 
 
 # ---- strings --------------------------------------------------------------------
-def _quote_literal(text, pref):
-    """-> list of (style, text) chunks that render `text` literally; style in n/s/h."""
-    if text == '':
-        return [('h' if pref == 'h' else 's', '')]
-    if pref == 'n' and not (set(text) & NAKED_FORBIDDEN_CHARS):
-        return [('n', text)]
-    if pref != 'h' and '"' not in text and '\\' not in text:
-        return [('s', text)]
-    if "'" not in text:
-        return [('h', text)]
-    # both kinds of quotes (or a backslash and a hard quote): split at the hard quotes
-    out = []
-    cur = ''
-    for ch in text:
-        if ch == "'":
-            if cur:
-                out.append(('h', cur))
-                cur = ''
-            out.append(('s', "'"))
-        else:
-            cur += ch
-    if cur:
-        out.append(('h', cur))
-    return out
-
-
 def r_string(sspec, text_source_position=False):
-    """STRING of fragments [style, pieces]; piece = ['t', text] | ['r', symbol name].
-    text_source_position: the string is a TEXT-SOURCE - a naked symbol reference would be the SYMBOL-REFERENCE form
-    (text-source or string symbols only) and a leading naked '-' an option: both are soft quoted there."""
-    chunks = []  # (style, rendered text without quotes, has_ref)
-    for style, pieces in sspec['frs']:
-        if text_source_position and style == 'n':
-            style = 's' 
-        for kind, text in pieces:
-            if kind == 't':
-                if text == '' and len(pieces) > 1:
-                    continue
-                for st, tx in _quote_literal(text, style):
-                    chunks.append((st, tx, False))
-            else:
-                ref = '@[%s]@' % text
-                if style == 'h':
-                    chunks.append(('h', ref, False))  # literal
-                else:
-                    chunks.append((style, ref, True))
-    if not chunks:
-        return '""'
-    # KF C09-2 (token handled like its first fragment): a token with a reference must not start with a hard
-    # quoted fragment, a token with a hard quoted '@[' must consist of it alone - the generator keeps to that.
-    if all(st == 'n' for st, _, _ in chunks) and not any(r for _, _, r in chunks):
-        whole = ''.join(tx for _, tx, _ in chunks)
-        if whole in NAKED_FORBIDDEN_TOKENS or whole.startswith(':>') or whole.startswith('<<'):
-            return '"%s"' % whole
-        return whole
+    """STRING: the fragments (vlib.ref.c10_model.string_chunks - the model computes the value from the same
+    fragments), each written with its own quotes, side by side"""
     out = []
-    if chunks[0][0] == 'h' and any(r for _, _, r in chunks):
-        out.append('""')  # see above: keep the first fragment of a token with references soft
-    naked_prefix = ''
-    for st, tx, _ in chunks:
-        if st != 'n':
-            break
-        naked_prefix += tx
-    if naked_prefix.startswith('<<') or naked_prefix.startswith(':>'):
-        chunks[0] = ('s', chunks[0][1], chunks[0][2])  # would read as here-document / text-until-end-of-line
-    for st, tx, _ in chunks:
-        if st == 'n':
-            out.append(tx)
-        elif st == 's':
-            out.append('"%s"' % tx)
-        else:
-            out.append("'%s'" % tx)
-    # adjacent quoted fragments of the same kind would read as  "a""b"  - legal concatenation
+    for st, tx, is_ref in string_chunks(sspec, text_source_position):
+        if is_ref:
+            tx = '@[%s]@' % tx
+        out.append(tx if st == 'n' else '"%s"' % tx if st == 's' else "'%s'" % tx)
     return ''.join(out)
 
 
@@ -133,7 +65,8 @@ def r_args(args, last=None, cont=None):
         else:
             raise ValueError(k)
     lines = []
-    if cont is not None and 0 < cont < len(toks):
+    if cont is not None and 0 < cont < len(toks) and not toks[cont].startswith('#'):
+        # (a continuation line that starts with '#' could be taken for a comment line: not generated)
         lines.append(' '.join(toks[:cont]) + ' \\')
         cur = '    ' + ' '.join(toks[cont:])
     else:
